@@ -283,6 +283,11 @@ def term_of(v):
     if isinstance(v, bytes):
         return {"k": "bytes", "v": v.hex()}
     if isinstance(v, np.ndarray):
+        if v.dtype.names:     # structured element type: spelled "i4,f4"; every field holds the (broadcast) literal
+            return {"k": "ndarray", "cls": f"{type(v).__module__}{type(v).__name__}",
+                    "dtype": ",".join(v.dtype[n].str.lstrip("<|=>") for n in v.dtype.names),
+                    "shape": [int(n) for n in v.shape], "size": int(v.size),
+                    "v": [repr(int(x[0])) for x in v.ravel(order="C").tolist()], "raw": v.tobytes(order="C").hex()}
         return {"k": "ndarray", "cls": f"{type(v).__module__}{type(v).__name__}", "dtype": str(v.dtype),
                 "shape": [int(n) for n in v.shape], "size": int(v.size),
                 "v": [repr(x) for x in v.ravel(order="C").tolist()], "raw": v.tobytes(order="C").hex()}
